@@ -303,7 +303,7 @@ func runC09(p *core.Prog, r *core.Report) {
 				// receiver loaded from the Flag found by flagMap[<const>]
 				sx.Instrs(fn, func(i2 ssa.Instruction) {
 					if lk, ok := i2.(*ssa.Lookup); ok && lk.CommaOk {
-						if _, isC := sx.ConstString(lk.Index); isC && sx.Origins(lk.X)["field:FlagSet.flagMap"] {
+						if _, isC := sx.ConstString(lk.Index); isC && flagMapField(c.FlagSet) != nil && sx.Origins(lk.X)["field:FlagSet."+flagMapField(c.FlagSet).Name()] {
 							// the Set receiver's Flag derives from this lookup
 							if fa, ok := valueFieldBase(sx.Args(call)[0]); ok {
 								if e, ok := fa.(*ssa.Extract); ok && e.Tuple == ssa.Value(lk) {
@@ -471,8 +471,19 @@ func runC09(p *core.Prog, r *core.Report) {
 				if a.Kind != "write" {
 					continue
 				}
-				al, isAlloc := a.Val.(*ssa.Alloc)
-				okW := isAlloc && al.Heap && c.FromP[ref.Fn]
+				// one fresh local, or one of several merged at the assignment (a nil alternative records nothing)
+				okW, nFresh := c.FromP[ref.Fn], 0
+				for _, lf := range leaves(a.Val) {
+					if cst, isC := lf.(*ssa.Const); isC && cst.IsNil() {
+						continue
+					}
+					if al, isAlloc := lf.(*ssa.Alloc); isAlloc && al.Heap {
+						nFresh++
+						continue
+					}
+					okW = false
+				}
+				okW = okW && nFresh > 0
 				r.Check(okW, "C09-R2", "Flag."+fname+" assigned in "+fnName(ref.Fn), p.Pos(a.Instr.Pos()), "address of a fresh string, while parsing", "Flag."+fname+" is assigned "+sx.ValPath(a.Val)+": not the address of a fresh string captured during Parse")
 			}
 		}
@@ -570,6 +581,50 @@ func runC09(p *core.Prog, r *core.Report) {
 		r.Check(len(bad) == 0 && n > 0 && len(hdrs) > 0, "C09-R1", "Parse succeeds only after the sources were applied to every flag", p.FuncPos(c.Parse), fmt.Sprintf("%d possibly-nil return(s), all behind the apply loop", n), strings.Join(uniq(bad), "; ")+": fields keep their defaults although the command line, the environment or the JSON document mention them")
 	}
 
+	// convenience entry points (FromCommandLine): an exported function that builds a FlagSet and reports success has
+	// parsed it — no shortcut (no arguments given, say) may skip Parse, which is also what applies environment and file
+	for _, fn := range p.PkgFuncs("config") {
+		if fn.Parent() != nil || fn.Blocks == nil || fn.Object() == nil || !fn.Object().Exported() || sameFn(fn, c.NewSet) || fn.Signature.Recv() != nil {
+			continue
+		}
+		var parses []ssa.Instruction
+		builds := false
+		sx.Instrs(fn, func(in ssa.Instruction) {
+			if call, ok := in.(ssa.CallInstruction); ok {
+				if callee := sx.StaticCallee(call); callee != nil {
+					if sameFn(callee, c.NewSet) {
+						builds = true
+					}
+					if sameFn(callee, c.ParseSrc) {
+						parses = append(parses, in)
+					}
+				}
+			}
+		})
+		res := fn.Signature.Results()
+		if !builds || res.Len() == 0 || res.At(res.Len()-1).Type().String() != "error" {
+			continue
+		}
+		cut := sx.Cut{Instrs: map[ssa.Instruction]bool{}}
+		for _, in := range parses {
+			cut.Instrs[in] = true
+		}
+		var bad []string
+		n := 0
+		for _, ret := range sx.Returns(fn) {
+			for _, rc := range retCases(ret, res.Len()-1) {
+				if cst, isC := rc.Val.(*ssa.Const); !isC || !cst.IsNil() {
+					continue
+				}
+				n++
+				if len(parses) == 0 || !sx.MustPass(fn, nil, rc.At, cut) {
+					bad = append(bad, "the return at "+p.Pos(ret.Pos())+" reports success on a path that never called Parse")
+				}
+			}
+		}
+		r.Check(len(bad) == 0, "C09-R1", fnName(fn)+" reports success only after Parse", p.FuncPos(fn), fmt.Sprintf("%d success return(s), all behind the call of Parse", n), strings.Join(uniq(bad), "; ")+": environment variables and the configuration file are ignored on that path, every field keeps its tag default")
+	}
+
 	// ---- R7 (state): what a FlagSet decides depends on its own struct, arguments, environment and file only — code
 	// reachable from NewFlagSet / Parse keeps nothing in package-level variables between FlagSets (a memo of env names, a
 	// shared scratch value): no store to a package variable of config, no Store/Swap/Delete on a package-level sync.Map
@@ -578,10 +633,34 @@ func runC09(p *core.Prog, r *core.Report) {
 		scope := map[*ssa.Function]bool{}
 		for _, root := range []*ssa.Function{c.NewSet, c.ParseSrc} {
 			for f := range reachableFrom(p, root) {
-				if rootFn(f).Pkg == c.ParseSrc.Pkg {
+				if p.InModule(rootFn(f)) {
 					scope[f] = true
 				}
 			}
+		}
+		inMod := func(g *ssa.Global) bool { return g.Pkg != nil && p.Pkgs != nil && strings.HasPrefix(g.Pkg.Pkg.Path(), c.ParseSrc.Pkg.Pkg.Path()[:strings.LastIndex(c.ParseSrc.Pkg.Pkg.Path(), "/")]) }
+		// package variables that hold a once-only memo (`var home = sync.OnceValues(os.UserHomeDir)`)
+		memo := map[*ssa.Global]string{}
+		for _, sp := range p.SPkgs {
+			f := sp.Func("init")
+			if f == nil {
+				continue
+			}
+			sx.Instrs(f, func(in ssa.Instruction) {
+				st, ok := in.(*ssa.Store)
+				if !ok {
+					return
+				}
+				g, ok := st.Addr.(*ssa.Global)
+				if !ok {
+					return
+				}
+				for o := range sx.Origins(st.Val) {
+					if strings.HasPrefix(o, "call:sync.Once") {
+						memo[g] = strings.TrimPrefix(o, "call:")
+					}
+				}
+			})
 		}
 		for f := range scope {
 			if f.Name() == "init" {
@@ -589,6 +668,10 @@ func runC09(p *core.Prog, r *core.Report) {
 			}
 			sx.Instrs(f, func(in ssa.Instruction) {
 				switch x := in.(type) {
+				case *ssa.UnOp:
+					if g, ok := x.X.(*ssa.Global); ok && x.Op == token.MUL && memo[g] != "" {
+						stateful = append(stateful, "package variable "+g.Name()+" is a "+memo[g]+" memo, used in "+fnName(f)+" at "+p.Pos(in.Pos())+" (what it computed for the first Parse — from the environment of that moment — is served to every later one)")
+					}
 				case *ssa.Store:
 					a := x.Addr
 					if fa, ok := a.(*ssa.FieldAddr); ok {
@@ -597,21 +680,28 @@ func runC09(p *core.Prog, r *core.Report) {
 					if ia, ok := a.(*ssa.IndexAddr); ok {
 						a = ia.X
 					}
-					if g, ok := a.(*ssa.Global); ok && g.Pkg == c.ParseSrc.Pkg {
+					if g, ok := a.(*ssa.Global); ok && inMod(g) {
 						stateful = append(stateful, "store to package variable "+g.Name()+" in "+fnName(f)+" at "+p.Pos(in.Pos()))
 					}
 				case ssa.CallInstruction:
 					n := sx.CalleeName(x)
+					if n == "(*sync.Once).Do" {
+						if args := sx.Args(x); len(args) > 0 {
+							if g, ok := args[0].(*ssa.Global); ok && inMod(g) {
+								stateful = append(stateful, "sync.Once on package variable "+g.Name()+" in "+fnName(f)+" at "+p.Pos(in.Pos()))
+							}
+						}
+					}
 					if strings.HasPrefix(n, "(*sync.Map).") && !strings.HasSuffix(n, ".Load") && !strings.HasSuffix(n, ".Range") {
 						if args := sx.Args(x); len(args) > 0 {
-							if g, ok := args[0].(*ssa.Global); ok && g.Pkg == c.ParseSrc.Pkg {
+							if g, ok := args[0].(*ssa.Global); ok && inMod(g) {
 								stateful = append(stateful, short(n)+" on package variable "+g.Name()+" in "+fnName(f)+" at "+p.Pos(in.Pos()))
 							}
 						}
 					}
 				case *ssa.MapUpdate:
 					if ld, ok := x.Map.(*ssa.UnOp); ok {
-						if g, ok := ld.X.(*ssa.Global); ok && g.Pkg == c.ParseSrc.Pkg {
+						if g, ok := ld.X.(*ssa.Global); ok && inMod(g) {
 							stateful = append(stateful, "insert into package-level map "+g.Name()+" in "+fnName(f)+" at "+p.Pos(in.Pos()))
 						}
 					}
